@@ -29,7 +29,7 @@ from common.model import cflat, rflat, to_c
 
 LEVEL = "proof"
 V = os.path.dirname(os.path.dirname(os.path.dirname(os.path.abspath(__file__))))
-SCRATCH = os.path.join(V, "build", "C15", "sim")
+SCRATCH = os.path.join(V, "build", "C15", "sim-%d" % os.getpid())
 LEVELS = ["per_sample_unit", "per_data_generation", "per_estimator_unit", "per_estimator_execution"]
 PHYS_ONLY = {"consistency": False, "mse_of_estimators": False, "mse_of_empi_dists": False, "physicality_violation": True}
 
@@ -816,6 +816,84 @@ def dens(c, vec):
     return sum(v * b for v, b in zip(vec, basis))
 
 
+def basis_mats(c):
+    return [np.asarray(b.toarray() if hasattr(b, "toarray") else b, dtype=complex) for b in c.basis()]
+
+
+def hs_of_map(c, f):
+    """HS matrix  HS[a][b] = tr(B_a^dagger f(B_b))  of a Hermiticity-preserving linear map f on d x d operators"""
+    B = basis_mats(c)
+    img = [f(b) for b in B]
+    return np.array([[np.trace(a.conj().T @ y).real for y in img] for a in B])
+
+
+def rat_unitary(rng, d):
+    """rational unitary by the Cayley transform of a small-integer Hermitian matrix (generic: complex, non-diagonal)"""
+    A = np.array([[complex(rng.randint(-2, 2), rng.randint(-2, 2)) for _ in range(d)] for _ in range(d)])
+    H = (A + A.conj().T) / 4
+    I = np.eye(d)
+    return (I - 1j * H) @ np.linalg.inv(I + 1j * H)
+
+
+def rat_density(rng, d, rank=None):
+    r = rank or d
+    L = np.array([[complex(rng.randint(-3, 3), rng.randint(-3, 3)) for _ in range(r)] for _ in range(d)])
+    if not np.any(L):
+        L[0, 0] = 1
+    rho = L @ L.conj().T
+    return rho / np.trace(rho).real
+
+
+def decay_kraus(d):
+    """amplitude damping towards |0> with the Pythagorean rate 9/25 (sqrt = 3/5, sqrt(1 - 9/25) = 4/5): NON-unital, CPTP, any d"""
+    K0 = np.diag([1.0] + [0.8] * (d - 1)).astype(complex)
+    Ks = [K0]
+    for i in range(1, d):
+        K = np.zeros((d, d), dtype=complex); K[0, i] = 0.6
+        Ks.append(K)
+    return Ks
+
+
+def conj_map(Ks):
+    return lambda X: sum(K @ X @ K.conj().T for K in Ks)
+
+
+def generic_base(rng, c, kind, name):
+    """harness-built GENERIC base objects (never produced by the code under test): non-unital CPTP gates, asymmetric
+    non-commuting instruments, non-uniform POVMs.  Everything is a rational construction evaluated in floating point."""
+    from quara.objects.povm import Povm
+    from quara.objects.gate import Gate
+    from quara.objects.mprocess import MProcess
+    d = c.dim
+    V, W, U = rat_unitary(rng, d), rat_unitary(rng, d), rat_unitary(rng, d)
+    sigma = rat_density(rng, d, rank=rng.choice([1, d]))
+    decay = [V @ K @ W for K in decay_kraus(d)]            # decay channel between two generic unitaries
+    t = Fraction(rng.randint(1, 4), 5)
+    tf = float(t)
+    if kind == "gate":
+        if name == "gen-decay":          # amplitude damping itself (the textbook non-unital channel)
+            f = conj_map(decay_kraus(d))
+        elif name == "gen-repl":         # replacement channel X -> tr(X) sigma
+            f = lambda X: np.trace(X) * sigma
+        else:                            # "gen-mix": rational mixture of a unitary, a rotated decay channel and a replacement channel
+            f = lambda X: tf * (U @ X @ U.conj().T) + (1 - tf) * 0.5 * conj_map(decay)(X) + (1 - tf) * 0.5 * np.trace(X) * sigma
+        hs = hs_of_map(c, f)
+        hs[0, :] = 0.0; hs[0, 0] = 1.0   # trace preservation holds exactly; remove the rounding dust of the first row
+        return Gate(c, hs)
+    if kind == "mprocess":
+        if name == "gen-instr2":         # 2 outcomes, unequal weights, outcome maps do not commute with each other
+            maps = [conj_map(decay[:1]), conj_map(decay[1:])]
+        else:                            # "gen-instr3": outcome 2 is a (sub-normalised) unitary branch
+            maps = [lambda X: tf * conj_map(decay[:1])(X), lambda X: tf * conj_map(decay[1:])(X), lambda X: (1 - tf) * (U @ X @ U.conj().T)]
+        return MProcess(c, [hs_of_map(c, f) for f in maps])
+    if kind == "povm":                   # "gen-povm": 3 outcomes with unequal traces and ranks, non-commuting elements
+        P = [rat_density(rng, d, rank=1) * Fraction(rng.randint(1, 3), 4).__float__(), rat_density(rng, d) * 0.25]
+        P.append(np.eye(d) - sum(P))     # remainder is PSD: ||P_0 + P_1|| <= tr <= 1
+        B = basis_mats(c)
+        return Povm(c, [np.array([np.trace(b.conj().T @ E).real for b in B]) for E in P])
+    raise ValueError(kind)
+
+
 def chk_depol(ctx, case):
     from quara.objects.state import State
     from quara.objects.povm import Povm
@@ -837,6 +915,8 @@ def chk_depol(ctx, case):
     with quiet():
         if name == "generic":
             base = State(c, rat_state_vec(rngc, c, boundary=case.get("boundary", False)))
+        elif name.startswith("gen-"):
+            base = generic_base(rngc, c, kind, name)
         elif path == "tester" and c.num_e_sys > 1:
             # the tester constructors take 1-qubit names and build the product object on the composite system
             base = (tester_typical.generate_tester_states if kind == "state" else tester_typical.generate_tester_povms)(c, [name])[0]
@@ -844,7 +924,7 @@ def chk_depol(ctx, case):
             base = generate_qoperation(kind, name, c, ids=ids)
         try:
             if path == "setting":
-                gs = DepolarizedQOperationGenerationSetting(c, base if name == "generic" else (kind, name), p, ids=ids)
+                gs = DepolarizedQOperationGenerationSetting(c, base if name.startswith("gen") else (kind, name), p, ids=ids)
                 out = gs.generate()
             elif path == "typical":
                 out = generate_qoperation_depolarized(kind, name, c, p, ids=ids)
@@ -854,8 +934,17 @@ def chk_depol(ctx, case):
             impl = ("ok", out)
         except ValueError:
             impl = ("err", "ValueError")
-    ctx.count("depol", key=repr(case), nontrivial=0 < p < 1 and name not in ("z0",) , label="%s-%s-%s-%s" % (case["mode"], kind, path, "p0" if p == 0 else "p1" if p == 1 else "bad" if not 0 <= p <= 1 else "p"))
     arrs = obj_arrays(base)
+    # how generic is the base object?  a side / transposition mistake is invisible on unital trace-preserving symmetric maps
+    if kind in ("gate", "mprocess"):
+        tot = sum(np.asarray(a) for a in arrs)
+        nonunital = float(np.abs(tot[1:, 0]).max()) > 1e-3
+        asym = max(float(np.abs(np.asarray(a) - np.asarray(a).T).max()) for a in arrs) > 1e-3
+        shape_label = ("nonunital" if nonunital else "unital") + ("-asym" if asym else "-sym")
+    else:
+        shape_label = "generic" if name.startswith("gen") else "named"
+    ctx.count("depol", key=repr(case), nontrivial=0 < p < 1 and name not in ("z0",),
+              label="%s-%s-%s-%s-%s" % (case["mode"], kind, path, shape_label, "p0" if p == 0 else "p1" if p == 1 else "bad" if not 0 <= p <= 1 else "p"))
     opname = {"state": "c15.depol_state", "povm": "c15.depol_povm_elem", "gate": "c15.depol_gate", "mprocess": "c15.depol_gate"}[kind]
     mixname = "c15.mix_vec" if kind in ("state", "povm") else "c15.mix_hs"
     st, val = m.try_call(opname, [n], [p] + rflat(arrs[0]))
@@ -871,6 +960,37 @@ def chk_depol(ctx, case):
     if len(oarrs) != len(arrs):
         ctx.violation("depol", site, "value", "number of elements changed %d -> %d" % (len(arrs), len(oarrs)), case)
         return
+    # ---- (1) the PROPERTY's own predicate on the implementation's output, computed with numpy only (no model involved):
+    #      "depolarising noise of rate p mixes the ideal object with the maximally mixed one in proportion p"
+    #        state / POVM element   X' = (1-p) X + p tr(X) I/d
+    #        gate / instrument outcome, as a map:   G'(X) = (1-p) G(X) + p tr(G(X)) I/d   i.e.  HS' = (1-p) HS + p e_0 (row_0 HS);
+    #        for a trace-preserving gate this is  (1-p) HS_G + p HS_D,  D = completely depolarising channel (HS_D = e_0 e_0^T)
+    hs_dp = np.diag([1.0] + [1.0 - p] * (n - 1))
+    e00 = np.zeros((n, n)); e00[0, 0] = 1.0
+    for x, (a, o) in enumerate(zip(arrs, oarrs)):
+        a, o = np.asarray(a, dtype=float), np.asarray(o, dtype=float)
+        if kind in ("state", "povm"):
+            X = dens(c, a)
+            want_op = (1 - p) * X + p * np.trace(X) * np.eye(d) / d
+            ok = np.allclose(dens(c, o), want_op, atol=1e-10, rtol=0)
+            dev = float(np.abs(dens(c, o) - want_op).max())
+            alts = {"p and 1-p exchanged": np.allclose(dens(c, o), p * X + (1 - p) * np.trace(X) * np.eye(d) / d, atol=1e-10, rtol=0) and abs(p - 0.5) > 1e-6}
+        else:
+            want = (1 - p) * a + p * np.outer(np.eye(n)[0], a[0])
+            ok = np.allclose(o, want, atol=1e-10, rtol=0)
+            dev = float(np.abs(o - want).max())
+            if kind == "gate":       # literally the property text: mixture with the maximally mixed (completely depolarising) gate
+                ok = ok and np.allclose(o, (1 - p) * a + p * e00, atol=1e-10, rtol=0)
+            alts = {"noise composed on the WRONG SIDE (G o D_p instead of D_p o G)": np.allclose(o, a @ hs_dp, atol=1e-10, rtol=0),
+                    "transposed HS matrix": np.allclose(o, want.T, atol=1e-10, rtol=0),
+                    "p and 1-p exchanged": np.allclose(o, p * a + (1 - p) * np.outer(np.eye(n)[0], a[0]), atol=1e-10, rtol=0) and abs(p - 0.5) > 1e-6}
+        if not ok:
+            hint = [k for k, v in alts.items() if v]
+            ctx.violation("depol", site, "not-the-stated-mixture",
+                          "%s %s (%s), p=%s, element %d: the depolarised object is not (1-p) * ideal + p * maximally mixed (max deviation %.3g)%s" % (
+                              kind, name, shape_label, case["p"], x, dev, "; it equals: " + ", ".join(hint) if hint else ""), case)
+            return
+    # ---- (2) correspondence with the Coq model: the composition the model computes, and the model's mixture (theorem *_is_mixture)
     for x, (a, o) in enumerate(zip(arrs, oarrs)):
         mod = [float(v) for v in m.call(opname, [n], [p] + rflat(a))]
         mix = [float(v) for v in m.call(mixname, [n], [p] + rflat(a))]
@@ -880,7 +1000,7 @@ def chk_depol(ctx, case):
         if not flow.allclose(mod, mix, 1e-12):
             ctx.violation("depol", site, "model-self-consistency", "composition and mixture differ in the model", case)
             return
-    # operator level: D_p(X) = (1-p) X + p tr(X) I/d
+    # ---- (3) operator level through the model's D_p:  D_p(X) = (1-p) X + p tr(X) I/d
     if kind in ("state", "povm"):
         for x, (a, o) in enumerate(zip(arrs, oarrs)):
             X = dens(c, a)
@@ -891,7 +1011,7 @@ def chk_depol(ctx, case):
     else:
         # on a generic (non-Hermitian, complex) operator X: depolarised map applied to X  =  D_p(base map applied to X)
         X = np.array([[complex(rngc.randint(-4, 4), rngc.randint(-4, 4)) for _ in range(d)] for _ in range(d)]) / 4
-        basis = [np.asarray(b.toarray() if hasattr(b, "toarray") else b, dtype=complex) for b in c.basis()]
+        basis = basis_mats(c)
         xv = np.array([np.trace(b.conj().T @ X) for b in basis])
         for x, (a, o) in enumerate(zip(arrs, oarrs)):
             Y = sum(v * b for v, b in zip(np.asarray(a) @ xv, basis))
@@ -920,16 +1040,19 @@ def sub_depol(ctx):
     rng = ctx.rng
     cases = []
     ps = ["0", "1", "1/10", "1/3", "7/8", "1/1000"]
-    objs = {"qubit": {"state": ["a", "z0", "y1", "generic"], "povm": ["x", "z"], "gate": ["hadamard", "x90", "piover8"], "mprocess": ["z-type1", "x-type2"]},
-            "qutrit": {"state": ["01z0", "generic"], "povm": ["z3"], "gate": ["01x90"], "mprocess": ["z3-type1"]},
-            "2qubit": {"state": ["bell_phi_plus"], "povm": ["bell"], "gate": ["cx"], "mprocess": []}}
+    # named objects (all named gates are unitary, hence unital: blind to the side of the composition) AND harness-built generic
+    # ones ("gen-*": non-unital CPTP gates, asymmetric non-commuting instruments, non-uniform POVMs, generic states)
+    objs = {"qubit": {"state": ["a", "z0", "y1", "generic"], "povm": ["x", "z", "gen-povm"],
+                      "gate": ["hadamard", "x90", "piover8", "gen-decay", "gen-repl", "gen-mix"], "mprocess": ["z-type1", "x-type2", "gen-instr2", "gen-instr3"]},
+            "qutrit": {"state": ["01z0", "generic"], "povm": ["z3", "gen-povm"], "gate": ["01x90", "gen-decay", "gen-mix"], "mprocess": ["z3-type1", "gen-instr3"]},
+            "2qubit": {"state": ["bell_phi_plus", "generic"], "povm": ["bell", "gen-povm"], "gate": ["cx", "gen-mix"], "mprocess": ["gen-instr2"]}}
     modes = ["qubit", "qutrit"] if ctx.quick else ["qubit", "qutrit", "2qubit"]
     for mode in modes:
         for kind, names in objs[mode].items():
             for name in names:
                 for p in ps if (mode == "qubit" or not ctx.quick) else ["0", "1", "1/3"]:
                     paths = ["setting"]
-                    if name != "generic":
+                    if not name.startswith("gen"):
                         paths.append("typical")
                         if kind in ("state", "povm") and mode != "2qubit":
                             paths.append("tester")
